@@ -308,7 +308,10 @@ void make_items(const Options& o, std::vector<Item>& items)
             if (s.size() <= 3) {
                 for (int single = 0; single < 2; single++) {
                     add(single, CB_NONE, RE_NONE, {s}, 0, 0);
-                    for (int re = RE_SIZE; re <= RE_DESTROY; re++) add(single, CB_REENTER, re, {s}, 0, 0);
+                    for (int re = RE_SIZE; re <= RE_DESTROY; re++) {
+                        add(single, CB_REENTER, re, {s}, 0, 0);
+                        add(single, CB_NONE, re, {s}, 0, 0);  // no callback installed, destructor re-enters
+                    }
                 }
             }
         }
@@ -316,9 +319,10 @@ void make_items(const Options& o, std::vector<Item>& items)
     // ---- concurrent part (locked class)
     std::vector<std::vector<int>> roles = {{ADD}, {ADD_EXT, DROP}, {ADD, ADD}, {DESTROY0}, {DESTROY0, DESTROY0}, {SIZE}, {DESTROY_10MS},
                                            {ADD_EXT, ADD_AGAIN}, {ADD, DESTROY0}, {ADD_EXT, DESTROY0, DROP}, {DESTROY_250MS}, {SIZE, ADD}};
-    for (int cb : {CB_COUNT, CB_REENTER})
+    for (int cb : {CB_COUNT, CB_REENTER, CB_NONE})
         for (int re : {RE_NONE, RE_SIZE, RE_ADD, RE_DESTROY}) {
             if (!thorough && cb == CB_REENTER && re != RE_NONE && re != RE_SIZE) continue;
+            if (!thorough && cb == CB_NONE && re == RE_NONE) continue;
             hx::multisets((int)roles.size(), 2, [&](const std::vector<int>& idx) {
                 bool has_add = false, has_destroy = false;
                 for (int i : idx)
